@@ -528,6 +528,13 @@ func (b *BlockList) persist(s blockSnapshot) {
 		return
 	}
 	path := filepath.Join(b.cfg.BlockListDir, "local")
+	// The directory is otherwise only created by the first remote refresh,
+	// a second after start: a mutation made before that reported success,
+	// found no directory to write to, and was never written again.
+	if err := os.MkdirAll(b.cfg.BlockListDir, 0o750); err != nil {
+		zlog.Warn("Blocklist persist failed: create directory", "dir", b.cfg.BlockListDir, "error", err.Error())
+		return
+	}
 	tmp, err := os.CreateTemp(b.cfg.BlockListDir, "local.tmp.*")
 	if err != nil {
 		zlog.Warn("Blocklist persist failed: create temp", "dir", b.cfg.BlockListDir, "error", err.Error())
